@@ -88,7 +88,7 @@ def body(chk, db, cfgname):
                 if fa[0] == "<" and fa[1] == ivar and fa[2] in order_keys:
                     full = True
         incn = f.nodes[n["inc"]] if n.get("inc") is not None else None
-        if not (incn and incn["k"] == "un" and incn["op"] == "++" and ctx.key(incn["sub"], inline=False)[:2] == ivar[:2]):
+        if not (ivar and incn and incn["k"] == "un" and incn["op"] == "++" and ctx.key(incn["sub"], inline=False)[:2] == ivar[:2]):
             full = False
         exits = [j for j, m in f.walk(n["body"]) if m["k"] in ("break", "return", "continue")] if n.get("body") is not None else []
         lbl = ("op", "[]", ("field", "Pomerol::Lattice::Term::SiteLabels", Tkey), ivar)
